@@ -30,7 +30,7 @@ import tempfile
 import warnings
 from collections import Counter
 
-from harness import c15_api, c15_cmp, c15_gen, core
+from harness import c15_api, c15_cmp, c15_gen, core, extract_c15
 
 PROP_MODULES = ["OV.Props.C15"]
 
@@ -335,7 +335,7 @@ def check_wrapper(api: str, M, o: dict, opset: int, tables: dict, stats: Counter
     # ---- O2: what the transformation does not touch survives (vs N(M); caller-kept carriers vs M)
     touched = tab["touches"]
     hard_np = c15_cmp.hard(c15_cmp.diff(NM, P))
-    caller_kept = {c for c, e in tab["proto"]["res"].items() if e == "M"}
+    caller_kept = {c for c, e in tab["proto"]["res"].items() if e in ("M", "M~")}
     if caller_kept - touched and any(cP[c] != cM[c] for c in caller_kept - touched):
         # never re-serialised by the wrapper: must still hold everything the caller had (byte identity is T2's business)
         for d in c15_cmp.hard(c15_cmp.diff(M0, P)):
@@ -424,7 +424,7 @@ def check_wrapper(api: str, M, o: dict, opset: int, tables: dict, stats: Counter
         expr = tab["proto"]["res"][c]
         if cM[c] != cQ[c]:
             stats[f"discriminating_{api}"] += 1
-        if expr == "M":
+        if expr in ("M", "M~"):  # the caller's content (`~`: reachable by the serde's write-through only on tensor carriers)
             ok = cP[c] == cM[c]
         elif expr == SER_EXPR:
             ok = cP[c] == cQ[c]
@@ -684,7 +684,29 @@ def main(run: core.Run) -> None:
         "initializer, functions) and presence of explicitly-default proto2 fields; floats by IEEE bytes",
         "what each IR transformation computes is outside C15 (C03/C05/C07/C10); the Lean part decides the wrappers' plumbing only",
     ]
+    # translator: regenerate the wrappers' programs and option tables from the working tree; the theorems of
+    # section 4 of Props/C15.lean are re-checked against them by the build below
+    gen_file = core.LEAN / "OV" / "Gen" / "C15Plumbing.lean"
+    gen_before = gen_file.read_text() if gen_file.exists() else None
+    src = extract_c15.regenerate()
+    run.coverage["source_tables"] = {
+        "sha": src["sha"], "programs": {f"{a}/{e}": st for (a, e), st in sorted(src["progs"].items())},
+        "routes": len(src["routes"]), "unknown_statements": sum(st.count("unknown") for st in src["progs"].values()),
+    }
     audit = run.prove(PROP_MODULES)
+    if not audit["ok"] and gen_file.read_text() != extract_c15.lean_text(extract_c15.extract()):
+        # another run (different VERIF_REPO) regenerated the shared table between our write and our build: redo once
+        for k in ("obligations", "discharged"):
+            run.coverage[k] = 0
+        run.coverage.pop("proof_problems", None)
+        extract_c15.regenerate()
+        audit = run.prove(PROP_MODULES)
+    if not audit["ok"] and gen_before is not None and gen_before != gen_file.read_text():
+        # leave the last table under which the library builds on disk (other modules import the whole library);
+        # this run's table is kept in the evidence and in the replay
+        run.coverage["source_tables"]["rejected_table"] = gen_file.read_text()[-6000:]
+        with core.lake_lock():
+            gen_file.write_text(gen_before)
     drv = core.Driver("C15")
     tables = driver_tables(drv)
     stats: Counter = Counter()
@@ -760,11 +782,25 @@ def _main(run: core.Run, audit: dict, tables: dict, stats: Counter) -> None:
     for k in range(n_models):
         seed = run.rng.getrandbits(48)
         M, info = build_case({"gen_seed": seed})
+        for fk, fv in info["features"].items():
+            if fk not in ("exotic_spec",) and fv not in (False, "none", 0):
+                stats[f"feat_{fk}" + ("" if fv is True else f"={fv}")] += 1
         orng = random.Random(seed ^ 0x5EED)
         for api in c15_api.APIS:
             o = c15_api.gen_options(orng, api, info["features"]["opset"])
             case = {"api": api, "gen_seed": seed, "options": o}
             do(case)
+            ft = info["features"]
+            if api == "optimize" and ft.get("expand_fold") == "mid" and "input_size_limit" not in o and "output_size_limit" not in o:
+                stats["branch_default_limits_straddled"] += 1  # 10 000-element fold: above default input, below default output limit
+            if api in ("optimize", "fold_constants") and ("input_size_limit" in o or "output_size_limit" in o) and ft.get("expand_fold", "none") != "none":
+                stats["branch_explicit_limits_on_growing_fold"] += 1
+            if api == "optimize" and o.get("inline") is False and (ft.get("function_call") or ft.get("unused_function")):
+                stats["branch_inline_false_with_functions"] += 1
+            if api == "convert_version" and capi_path_taken(ft["opset"], o) and ft.get("big_initializer") == "input":
+                stats["branch_capi_with_big_overridable_initializer"] += 1
+            if api == "convert_version" and o.get("target_version") == ft["opset"]:
+                stats["branch_convert_same_version"] += 1
             if len(run.samples) < 6 and k % 7 == 0 and api in ("optimize", "convert_version", "rewrite_rules"):
                 run.sample({"case": case, "opset": info["features"]["opset"], "ir_version": info["features"]["ir_version"]})
         do({"api": "inline", "gen_seed": seed})
@@ -819,11 +855,25 @@ def _main(run: core.Run, audit: dict, tables: dict, stats: Counter) -> None:
                      for a, t in tables.items() if not a.startswith("_")},
         explanation="models are seeded random over the feature lattice of harness/c15_gen.py; all 9 API forms + inline run on every model",
     )
+    if run.violations:
+        return  # a behavioural difference was reported; coverage guards must not turn it into an infrastructure exit
     if n_api and n_err > 0.3 * n_api:
         raise core.Infra("generator degenerated: >30% of API calls raised")
     for a in c15_api.APIS:
         if a != "rewrite_empty" and stats[f"discriminating_{a}"] == 0:
             raise core.Infra(f"generator degenerated: no carrier distinguishes caller bytes from serialised-IR bytes for {a}")
+    required = [
+        "branch_default_limits_straddled", "branch_explicit_limits_on_growing_fold", "branch_inline_false_with_functions",
+        "branch_capi_with_big_overridable_initializer", "branch_convert_same_version", "convert_capi_path",
+        "replace_guard_functions_0", "replace_guard_functions_1", "inline_functions_0", "inline_functions_1",
+        "routes_checked", "serde_refused_models", "feat_subgraph_if", "feat_const_tensor_node=anon", "feat_explicit_defaults",
+        "feat_function_value_info", "feat_other_fields", "feat_tensor_meta", "err_convert_version_VersionConverterError",
+        "err_replace_functions_keep_ValueError",
+    ] + (["arg_written_through"] if stats["witness_ALIAS"] else [])  # (only while C15-ALIAS reproduces)
+    missing = [k for k in required if stats[k] == 0]
+    run.coverage["required_counters"] = {k: stats[k] for k in required}
+    if missing:
+        raise core.Infra(f"generator degenerated: required coverage counters are zero: {missing}")
     dts = [k for k in stats if k.startswith("payload_dtype_")]
     if len(dts) < 20:
         raise core.Infra(f"generator degenerated: only {len(dts)} element types reached the payload check")
